@@ -13,6 +13,7 @@ RULE = ("abstract messages over the whole grammar: every kind x EVERY subset of 
         "distinct = hash(abstract message)")
 ASSUMPTIONS = ["text never has leading/trailing white space or CR (excluded by the property)",
                "structural view compares attribute values as str, '' == absent text"]
+QUICK_SHARDS = 2
 REQUIRED_EVENTS = ["roundtrips", "foreign_parses", "foreign_parses_utf8_bytes", "kinds_x_optsubsets"]
 
 
